@@ -25,6 +25,14 @@ pub struct Profile {
 
 impl Profile {
     pub fn by_name(name: &str) -> Profile {
+        // suffix "-nr": same profile without resize / close operations
+        if let Some(n) = name.strip_suffix("-nr") {
+            let mut p = Profile::by_name(n);
+            p.name = name.to_string();
+            p.w_ops[3] = 0;
+            p.w_ops[4] = 0;
+            return p;
+        }
         let base = Profile {
             name: name.to_string(),
             max_actions: 60,
